@@ -215,7 +215,28 @@ Fixpoint ty_all (p : ty -> bool) (t : ty) {struct t} : bool :=
 
 Definition zero_len_fixed (t : ty) : bool := e_is_fixed t && (e_fixed_len t =? 0).
 
+(** Types usable as ordered-collection keys: [val_cmp] is the Rust [Ord] on them (integers,
+    bool, byte arrays, vectors, tuples, Option, tag enums deriving Ord). *)
+Fixpoint key_type (t : ty) : bool :=
+  match t with
+  | TUint _ | TBool | TNonZero | TBytesN _ | TByteList | TTag _ => true
+  | TList a | TOption a | TWrap a => key_type a
+  | TContainer _ fs => (fix all fs := match fs with [] => true | f :: r => key_type f && all r end) fs
+  | _ => false
+  end.
+
+(** Definitions the derive macro accepts: 1..128 union / tag variants. *)
+Definition node_wf (t : ty) : bool :=
+  match t with
+  | TUnion ts => Nat.leb 1 (length ts) && Nat.leb (length ts) 128
+  | TTag n => Nat.leb 1 n && Nat.leb n 128
+  | TSet a => key_type a
+  | TMap k _ => key_type k
+  | _ => true
+  end.
+
 Definition node_rt (t : ty) : bool :=
+  node_wf t &&
   match t with
   | TTransEnum _ => false
   | TList a | TSet a => negb (zero_len_fixed a)
@@ -223,6 +244,7 @@ Definition node_rt (t : ty) : bool :=
   | _ => true
   end.
 Definition node_canon (t : ty) : bool :=
+  node_wf t &&
   match t with
   | TTransEnum _ | TSet _ | TMap _ _ => false
   | _ => true
@@ -232,3 +254,5 @@ Definition node_canon (t : ty) : bool :=
 Definition rt_type (t : ty) : bool := ty_all node_rt t.
 (** C02/C04: everything except ordered maps/sets and transparent enums. *)
 Definition canon_type (t : ty) : bool := ty_all node_canon t.
+(** Well-formed type expressions (what the Rust compiler and the derive macro accept). *)
+Definition wf_type (t : ty) : bool := ty_all node_wf t.
